@@ -334,6 +334,9 @@ func (h *httpServerHandler) handlePostRequest(ctx context.Context, w http.Respon
 			sessionID = session.GetID()
 		}
 		notificationSender := newSSENotificationSender(w, flusher, sessionID)
+		// Notifications and the final response share this stream: one event ID generator for both,
+		// so that IDs on the stream are distinct even within one millisecond.
+		notificationSender.sseWriter = sseResponder.sseWriter
 		reqCtx := withNotificationSender(ctx, notificationSender)
 		if session != nil {
 			reqCtx = setSessionToContext(reqCtx, session)
